@@ -18,6 +18,8 @@ Variable vun : nat -> V -> V.                (* unary ufunc table *)
 Variable vred : nat -> list V -> V.          (* reducer table (sum, prod, max, min) *)
 Variable vdet : nat -> (nat -> nat -> V) -> V.                 (* closed-form Det, dims 1-3 *)
 Variable vinv : nat -> (nat -> nat -> V) -> nat -> nat -> V.   (* closed-form Inv, dims 1-3 *)
+Variable vhalf : V.                          (* 1/2, for the symmetrised tensor product *)
+Variable vsqrt : V -> V.                     (* square root, for Norm / Normalize *)
 
 Record arr := mkArr { shape : list nat; dat : list nat -> V }.
 
@@ -293,13 +295,44 @@ Definition reduce_arr (f : list V -> V) (axes : list nat) (a : arr) : arr :=
 
 Definition all_axes (n : nat) : list nat := seq 0 n.
 
-(* fe.sum(axis=...) and np.sum(fe, axis=...): the value is numpy's, the type is read from axis *)
-Definition fe_reduce (op : nat) (axis : option (list Z)) (x : operand) : result :=
+(* a reduction f over [axis]: the value is numpy's, the type is read from axis *)
+Definition fe_reduce_with (f : list V -> V) (axis : option (list Z)) (x : operand) : result :=
   let a := oarr x in
   let nd := length (shape a) in
   let axes := match axis with None => all_axes nd | Some l => map (norm_axis nd) l end in
-  let r := reduce_arr (vred op) axes a in
+  let r := reduce_arr f axes a in
   if is_fe x && keeps_fe_axes axis (Z.of_nat nd) && (2 <=? length (shape r)) then RFe r else RPlain r.
+
+(* fe.sum(axis=...) and np.sum(fe, axis=...) *)
+Definition fe_reduce (op : nat) (axis : option (list Z)) (x : operand) : result :=
+  fe_reduce_with (vred op) axis x.
+
+(* _linalg.Norm(array, axis=a | (a, b)): Euclidean length along one axis, Frobenius norm over
+   two (all entries when axis is omitted).  SPECIFICATION of the type: like every reduction, a FeArray exactly when the
+   reduced axis is a tensor axis. *)
+Definition norm_of (l : list V) : V := vsqrt (vsum (map (fun v => vmul v v) l)).
+Definition fe_Norm (axis : option (list Z)) (x : operand) : result :=
+  fe_reduce_with norm_of axis x.
+
+(* _linalg.Normalize(array, axis): every entry divided by the Euclidean length of its slice
+   along [axis]; zero-length slices are divided by 1.  Shape and kind are the input's. *)
+Fixpoint set_nth (j v : nat) (k : list nat) : list nat :=
+  match k, j with
+  | [], _ => []
+  | _ :: k', 0 => v :: k'
+  | x :: k', S j' => x :: set_nth j' v k'
+  end.
+Definition fe_Normalize (axis : Z) (x : operand) : result :=
+  let a := oarr x in
+  let j := norm_axis (length (shape a)) axis in
+  let r := mkArr (shape a)
+             (fun k => let n := norm_of (map (fun i => dat a (set_nth j i k)) (seq 0 (nth j (shape a) 0))) in
+                       vbin 3 (dat a k) (if vnonzero n then n else vone)) in
+  match x with
+  | OFe _ => RFe r
+  | OScalar _ => RErr 0
+  | OPlain _ => RPlain r
+  end.
 
 (* ---------------- np.where through __array_function__ (numpy's plain broadcasting) --------- *)
 Definition ew3 (f : V -> V -> V -> V) (a b c : arr) : option arr :=
@@ -349,6 +382,43 @@ Definition fe_Inv (x : operand) : result :=
                    (fun k => vinv n (mat_at a (firstn nb k)) (nth 0 (skipn nb k) 0) (nth 1 (skipn nb k) 0)))
   else RErr 0.
 
+(* ---------------- TensorProd(A, B, symmetric, ndim) ---------------- *)
+(* labels of the einsum literals (i j k l = 0 1 2 3) *)
+Definition tp_vec : list nat * list nat * list nat := ([0], [1], [0; 1]).                 (* ...i,...j->...ij *)
+Definition tp_mat : list nat * list nat * list nat := ([0; 1], [2; 3], [0; 1; 2; 3]).     (* ...ij,...kl->...ijkl *)
+Definition tp_sym1 : list nat * list nat * list nat := ([0; 2], [1; 3], [0; 1; 2; 3]).    (* ...ik,...jl->...ijkl *)
+Definition tp_sym2 : list nat * list nat * list nat := ([0; 3], [1; 2], [0; 1; 2; 3]).    (* ...il,...jk->...ijkl *)
+
+Definition einsum_l (lb : list nat * list nat * list nat) (a b : arr) : option arr :=
+  let '(l1, l2, lo) := lb in einsum false [(l1, a); (l2, b)] lo.
+
+(* both operands FeArrays, or both plain; a mixed call fails (it reads ._ndim of the plain one) *)
+Definition fe_TensorProd (sym : bool) (nd : option nat) (x y : operand) : result :=
+  match x, y with
+  | OScalar _, _ | _, OScalar _ => RErr 0
+  | OFe _, OPlain _ | OPlain _, OFe _ => RErr 0
+  | _, _ =>
+      let n := match nd with Some n => n | None => orank x end in
+      if negb ((n =? 1) || (n =? 2)) then RErr 0
+      else if is_fe x && negb (orank x =? orank y) then RErr 0
+      else if negb (is_fe x) && negb (length (indices (shape (oarr x))) =? length (indices (shape (oarr y)))) then RErr 0
+      else
+        let fin (r : arr) := if is_fe x then as_fe (RPlain r) else RPlain r in
+        if n =? 1 then
+          match einsum_l tp_vec (oarr x) (oarr y) with Some r => fin r | None => RErr 1 end
+        else if sym then
+          match einsum_l tp_sym1 (oarr x) (oarr y), einsum_l tp_sym2 (oarr x) (oarr y) with
+          | Some p1, Some p2 =>
+              match ew2 vadd p1 p2 with
+              | Some s => fin (ew1 (fun v => vmul vhalf v) s)
+              | None => RErr 1
+              end
+          | _, _ => RErr 1
+          end
+        else
+          match einsum_l tp_mat (oarr x) (oarr y) with Some r => fin r | None => RErr 1 end
+  end.
+
 (* ---------------- FeArray.broadcast(value, Ne, nPg, tensor_ndim) ---------------- *)
 Definition fe_broadcast (x : operand) (Ne nPg td : nat) : result :=
   match x with
@@ -389,7 +459,10 @@ Inductive expr :=
   | ETrace (x : operand)
   | EDet (x : operand)
   | EInv (x : operand)
-  | EBroadcast (x : operand) (Ne nPg td : nat).
+  | EBroadcast (x : operand) (Ne nPg td : nat)
+  | ETensorProd (sym : bool) (nd : option nat) (x y : operand)
+  | ENorm (axis : option (list Z)) (x : operand)
+  | ENormalize (axis : Z) (x : operand).
 
 Definition eval (e : expr) : result :=
   match e with
@@ -407,6 +480,9 @@ Definition eval (e : expr) : result :=
   | EDet x => fe_Det x
   | EInv x => fe_Inv x
   | EBroadcast x Ne nPg td => fe_broadcast x Ne nPg td
+  | ETensorProd sym nd x y => fe_TensorProd sym nd x y
+  | ENorm axis x => fe_Norm axis x
+  | ENormalize axis x => fe_Normalize axis x
   end.
 
 (* canonical observable form: (kind code, shape, row-major values) ;
